@@ -289,7 +289,7 @@ def expected_tests(spec, opts, pyver=None):
 
 SCALAR_KEYS = ('unit', 'non_unit', 'at_level', 'all', 'only_level', 'repeat',
                'shuffle_seed', 'shuffle', 'stop', 'buffer', 'verbose',
-               'processes', 'color', 'progress')
+               'processes', 'color', 'progress', 'shuffle_seed_alone')
 
 
 def _opt_groups(opts):
@@ -318,6 +318,11 @@ def _opt_groups(opts):
                                    '--shuffle-seed=%d' % opts['shuffle_seed']]))
     elif opts.get('shuffle'):
         g.append(('shuffle', ['--shuffle']))
+    if opts.get('shuffle_seed_alone') is not None:
+        # the seed without the switch (e.g. in the script's defaults while
+        # --shuffle is typed on the command line)
+        g.append(('shuffle_seed_alone',
+                  ['--shuffle-seed=%d' % opts['shuffle_seed_alone']]))
     if opts.get('stop'):
         g.append(('stop', ['-x']))
     if opts.get('buffer'):
